@@ -17,11 +17,20 @@ def parseBase (s : String) : Except String BaseClass :=
 
 def parseIo (s : String) : Except String IoKind :=
   match s with
-  | "raw" => pure .raw | "buffered" => pure .buffered | "other" => pure .other | _ => throw "io"
+  | "raw" => pure .raw | "buffered" => pure .buffered | "text" => pure .text | "other" => pure .other
+  | _ => throw "io"
+
+/-- `"variant": {"grow_buf": b, "wrap_text": b, "grow_text": b}`; absent = the tree without the repairs -/
+def parseVariant (j : Json) : Except String Variant :=
+  match j.getObjVal? "variant" with
+  | .ok v => do
+    pure { growBuf := ← getBool v "grow_buf", wrapText := ← getBool v "wrap_text", growText := ← getBool v "grow_text" }
+  | .error _ => pure Variant.current
 
 def planStr : Plan → String
   | .noDefuse => "no-defuse" | .rewind => "rewind" | .wrapRaw => "wrap-raw"
-  | .wrapBuffered => "wrap-buffered" | .secondOpen => "second-open" | .refuse => "refuse"
+  | .wrapBuffered => "wrap-buffered" | .wrapText => "wrap-text" | .secondOpen => "second-open"
+  | .refuse => "refuse"
 
 def outcomeStr : Outcome → String
   | .parsed => "parsed" | .forbidden => "forbidden" | .oserror => "oserror"
@@ -182,6 +191,13 @@ def verdictJson : Verdict → Json
   | .external => Json.mkObj [("v", "external")]
   | .malformed => Json.mkObj [("v", "malformed")]
 
+def pevJson : PEv → Json
+  | .declared v => Json.arr #["declared", verdictJson v]
+  | .extSubset => Json.arr #["ext-subset"]
+  | .expanded n => Json.arr #["expanded", bytesToString n]
+  | .undefinedRef n => Json.arr #["undefined", bytesToString n]
+  | .binaryRef n => Json.arr #["binary", bytesToString n]
+
 end P
 
 /-! ### build traces -/
@@ -222,24 +238,26 @@ def handle (j : Json) : Except String Json := do
   let op ← getStr j "op"
   match op with
   | "plan" =>
+    let v ← parseVariant j
     let m ← parseMode (← getStr j "mode")
     let b ← parseBase (← getStr j "base")
     let ch : Chan := { seekable := ← getBool j "seekable", io := ← parseIo (← getStr j "io"),
                        hasOpener := ← getBool j "opener", hasUrl := ← getBool j "url" }
-    let pl := plan m b ch
+    let pl := plan v m b ch
     return Json.mkObj [("defused", isDefused m b), ("plan", planStr pl),
       ("outcome", outcomeStr (outcome pl (← getBool j "must_refuse") (← getNat j "scan_end") (← getNat j "buf_len")))]
   | "doc" =>
+    let v ← parseVariant j
     let m ← parseMode (← getStr j "mode")
     let b ← parseBase (← getStr j "base")
     let ch : Chan := { seekable := ← getBool j "seekable", io := ← parseIo (← getStr j "io"),
                        hasOpener := ← getBool j "opener", hasUrl := ← getBool j "url" }
-    let pl := plan m b ch
+    let pl := plan v m b ch
     let total ← getNat j "total"
     let tagEnd ← getNat j "tag_end"
     return Json.mkObj [("plan", planStr pl),
-      ("outcome", outcomeStr (outcomeDoc pl (← getBool j "must_refuse") total tagEnd)),
-      ("scan_end", scanEndOf total tagEnd), ("buf_len", bufLenOf total)]
+      ("outcome", outcomeStr (outcomeDoc v pl (← getBool j "must_refuse") total tagEnd)),
+      ("scan_end", scanEndOf total tagEnd), ("buf_len", bufLenAfter (growOf v pl) total tagEnd)]
   | "prolog" =>
     let p ← P.prolog (← j.getObjVal? "ast")
     let root := toBytes (← getStr j "root")
@@ -264,15 +282,40 @@ def handle (j : Json) : Except String Json := do
       return Json.mkObj [("hex", toHex p.render), ("must_refuse", XsVerif.Prolog.mustRefuse p),
         ("classify", P.verdictJson (XsVerif.Prolog.classify (p.render ++ [60, 114, 47, 62])))]
   | "build" =>
+    let v ← parseVariant j
     let m ← parseMode (← getStr j "mode")
     let f ← parseForest 64 [← j.getObjVal? "root"]
-    let (evs, st) := build m f
+    let (evs, st) := build v m f
     return Json.mkObj [("events", Json.arr (evs.map evJson).toArray), ("status", statusStr st)]
   | "reader" =>
     let s := synth (← getNat j "len")
     let ops ← (← getArr j "ops").toList.mapM parseOp
-    let r := Reader.init (← getNat j "size") s
-    return Json.mkObj [("buf", r.buf.length), ("outs", Json.arr ((r.run ops).map outJson).toArray)]
+    let g := (j.getObjValAs? Bool "grow").toOption.getD false
+    let r := Reader.init g (← getNat j "size") s
+    let final := match r.exec ops with
+      | some r' => Json.mkObj [("pos", r'.pos), ("buf", r'.buf.length), ("grow", r'.grow)]
+      | none => Json.null
+    return Json.mkObj [("buf", r.buf.length), ("outs", Json.arr ((r.run ops).map outJson).toArray), ("final", final)]
+  | "scan" =>
+    -- a sequential scan (reads `ks`), the rewind, the reads of the parser (`ms`), then read to the end
+    let s := synth (← getNat j "len")
+    let g ← getBool j "grow"
+    let ks ← (← getArr j "ks").toList.mapM (·.getNat?)
+    let ms ← (← getArr j "ms").toList.mapM (·.getNat?)
+    let (sc, r) := (Reader.init g (← getNat j "size") s).readMany ks
+    match r.seek 0 with
+    | none => return Json.mkObj [("scan", digest sc), ("pos", r.pos), ("buf", r.buf.length), ("seek_ok", false)]
+    | some r1 =>
+      let (pa, r2) := r1.readMany ms
+      return Json.mkObj [("scan", digest sc), ("pos", r.pos), ("buf", r.buf.length), ("seek_ok", true),
+        ("parse", digest pa), ("rest", digest (r2.read none).1)]
+  | "events" =>
+    let p ← P.prolog (← j.getObjVal? "ast")
+    let refs ← (← getArr j "refs").toList.mapM (fun v => do pure (toBytes (← v.getStr?)))
+    return Json.mkObj [("prolog", Json.arr ((XsVerif.Prolog.prologEvents p).map P.pevJson).toArray),
+      ("refs", Json.arr ((refs.map (XsVerif.Prolog.refEvent p)).map P.pevJson).toArray),
+      ("handler", P.verdictJson (XsVerif.Prolog.firstHandler p)),
+      ("hot", (XsVerif.Prolog.docEvents p refs).any XsVerif.Prolog.PEv.hot)]
   | _ => throw s!"unknown op {op}"
 
 end XsVerif.Driver.C13
